@@ -2,7 +2,7 @@
    what the real localizer did on a recording, fault-injecting file system for "no fault" and for
    EVERY fault index: outcome class, complete effect trace (op, path, ok) and final file-system
    state.  [mismatches18] lists the cases on which the model disagrees on any run. *)
-From KV Require Export Fs.Localize.
+From KV Require Export Fs.Localize Fs.LocalizeBuild.
 
 Inductive oclass18 := KOk (dst : string) | KErr | KFatal | KPanic.
 
@@ -32,14 +32,14 @@ Record case18 := mk18 {
 (* compact event constructor used by the harness *)
 Definition op_of (n : nat) : opcode :=
   match n with
-  | 0 => OExists | 1 => OIsDir | 2 => OMkdir | 3 => OMkdirAll | 4 => OCleanedAbs
+  | 0 => OExists | 2 => OMkdir | 3 => OMkdirAll | 4 => OCleanedAbs
   | 5 => OReadFile | 6 => OWriteFile | 7 => ORemoveAll | _ => OWalk
   end.
 Definition ev (n : nat) (p : string) (ok : bool) : event := mkEv (op_of n) p ok.
 
 Definition opcode_eqb (a b : opcode) : bool :=
   match a, b with
-  | OExists, OExists | OIsDir, OIsDir | OMkdir, OMkdir | OMkdirAll, OMkdirAll
+  | OExists, OExists | OMkdir, OMkdir | OMkdirAll, OMkdirAll
   | OCleanedAbs, OCleanedAbs | OReadFile, OReadFile | OWriteFile, OWriteFile
   | ORemoveAll, ORemoveAll | OWalk, OWalk => true
   | _, _ => false
@@ -90,7 +90,7 @@ Definition kust_eqb (a b : kust) : bool :=
 Definition content_eqb (a b : content) : bool :=
   match a, b with
   | CRaw x, CRaw y => N.eqb x y
-  | CKust x, CKust y => kust_eqb x y
+  | CKust i x, CKust j y => N.eqb i j && kust_eqb x y
   | CPlug i x, CPlug j y => N.eqb i j && list_eqb String.eqb x y
   | _, _ => false
   end.
@@ -152,8 +152,44 @@ Definition class_agrees (o : oclass18) (m : outcome string) : bool :=
   | _, _ => false
   end.
 
+(* ---- equivalence on successful runs: the final state is a faithful image of the source
+   ([mirror_ok], whose soundness is Fs/LocalizeBuildProofs.mirror_build_eq), and whenever the source
+   reads as a resources-only tree the destination reads as the SAME tree ---- *)
+Fixpoint rtree_eqb (a b : rtree) : bool :=
+  match a, b with
+  | RFile x, RFile y => N.eqb x y
+  | RDir i l, RDir j m =>
+      N.eqb i j && (fix go (l m : list rtree) : bool :=
+                      match l, m with
+                      | [], [] => true
+                      | x :: l', y :: m' => rtree_eqb x y && go l' m'
+                      | _, _ => false
+                      end) l m
+  | _, _ => false
+  end.
+
+Definition equiv_ok (c : case18) (s' : fs) : bool :=
+  let s0 := fs_of_listing (c_fs c) in
+  let troot := query_comps (c_target c) in
+  let sc := if String.eqb (c_scope c) "" then troot else query_comps (c_scope c) in
+  let nd := query_comps (if String.eqb (c_newdir c) "" then default_new_dir troot else c_newdir c) in
+  mirror_ok (orc_of c) sc nd s0 s'
+  && match drop_prefix sc troot with
+     | Some r =>
+         match read_tree (orc_of c) 16 s0 troot with
+         | Some t =>
+             match read_tree (orc_of c) 16 s' (nd ++ r)%list with
+             | Some t' => rtree_eqb t t'
+             | None => false
+             end
+         | None => true
+         end
+     | None => false
+     end.
+
 Definition agree_run (c : case18) (o : obs18) : bool :=
   let '(w, out) := model_run c o in
+  (match out with OOk _ => equiv_ok c (w_fs w) | _ => true end) &&
   class_agrees (ro_class o) out
   && list_eqb event_eqb (rev (w_trace w)) (ro_trace o)
   && fs_same (w_fs w)
